@@ -49,6 +49,25 @@ def f32(x):
     return struct.unpack("f", struct.pack("f", x))[0]
 
 
+def arcs_order_ok(arcpart):
+    """fsg_model_arcs order as the writer relies on it: states ascending (the harness loops over the states),
+    and per state every word arc before every null arc"""
+    if arcpart in ("-", ""):
+        return True
+    arcs = [tuple(int(x) for x in a.split(":")) for a in arcpart.split(",")]
+    last_src, seen_null = -1, False
+    for (a, b, lp, w) in arcs:
+        if a < last_src:
+            return False
+        if a != last_src:
+            last_src, seen_null = a, False
+        if w < 0:
+            seen_null = True
+        elif seen_null:
+            return False
+    return True
+
+
 def parse_dump(line):
     """`fsg n s f | arcs … | vocab … | sil … | alt …` -> dict with sorted arcs"""
     parts = [p.strip() for p in line.split("|")]
@@ -576,7 +595,7 @@ class Runner:
         self.c, self.binp, self.drv = c, binp, drv
         self.stats = {"oracle_nfaeq": 0, "oracle_besteq": 0, "oracle_errors": 0, "idempotence_checks": 0,
                       "roundtrips": 0, "roundtrips_skipped_below_float32": 0, "roundtrip_exact_logp": 0, "roundtrip_total_arcs": 0,
-                      "best_sentences": 0, "best_accepting": 0, "best_crosschecks": 0, "best_oracle_skipped_saturating": 0, "saturating_closures": 0, "best_crosscheck_failures": [],
+                      "best_sentences": 0, "best_accepting": 0, "best_crosschecks": 0, "arc_iterations_checked": 0, "readlaw_tokens": 0, "readlaw_violations": [], "best_oracle_skipped_saturating": 0, "saturating_closures": 0, "best_crosscheck_failures": [],
                       "branch_outcomes": {}, "read_ok": 0, "read_err": 0,
                       "closure_added": 0, "closure_raised_or_added_cases": 0}
 
@@ -616,6 +635,11 @@ class Runner:
                     for l in lex(text):
                         toks.setdefault(lw, set()).update(l)
         ptab = run_parsep(self.binp, toks)
+        for (lw_, tok_), val in ptab.items():
+            if val is not None:   # the law the theorem C13_read_wf assumes of the probability parser
+                self.stats["readlaw_tokens"] += 1
+                if not (-536870912 <= val <= 0):
+                    self.stats["readlaw_violations"].append((lw_, tok_, val))
         # driver script
         script, tags = [], []
         for ci, (case, ho) in enumerate(zip(cases, percase)):
@@ -747,6 +771,9 @@ class Runner:
                 if w[0] == "dict":
                     continue
                 if w[0] == "dump":
+                    self.stats["arc_iterations_checked"] += 1
+                    if not arcs_order_ok(o.split("|")[1].strip()[len("arcs"):].strip() if "|" in o else "-"):
+                        r["idem"].append({"op": "fsg_model_arcs", "problem": "a null arc is iterated before a word arc of the same state", "dump": o[:400]})
                     a, b = parse_dump(o), parse_dump(m or "")
                     if a != b and r["diff"] is None:
                         r["diff"] = (oi, {"op": op, "impl": o, "model": m})
@@ -1016,6 +1043,18 @@ def check(c):
                 batch = []
         if batch:
             judge(batch, "exhaustive 3-state null graphs at log-zero", blen=1)
+    # ownership: the first generated batch again under LeakSanitizer (fsg_model_free, reader error paths, glists)
+    lrng = vlib.Rng(c.seed * 7919 + 13)
+    lstats = {"logp_kinds": {}, "lw": {}, "states": {}, "phases": {}, "read_kinds": {}, "max_chain": 0, "branches": dict.fromkeys(stats["branches"], 0)}
+    leak_cases = [gen_case(lrng, c.tier, lstats) for _ in range(200 if c.tier == "quick" else 2000)] + \
+                 [gen_read_case(lrng, lstats) for _ in range(100 if c.tier == "quick" else 1000)]
+    flat = [op for case in leak_cases for op in case]
+    lrc, lout, lerr = vlib.run_bin(binp, args=[MDEF], stdin_text="\n".join(flat) + "\n", timeout=600, leaks=True)
+    c.oblige("no leak (LeakSanitizer) over a batch of API histories and reads incl. refused files: fsg_model_free releases "
+             "links, glists, hash tables, vocabulary, bit vectors; the reader's error paths release what they allocated",
+             lrc == 0 and "LeakSanitizer" not in lerr, lerr[-1500:])
+    c.oblige("the probability parser's values are inside [log-zero, 0] on every token parsed (hypothesis ReadLaw of C13_read_wf)",
+             not runner.stats["readlaw_violations"], runner.stats["readlaw_violations"][:5])
     c.oblige("correspondence: real fsg_model.c / fsg_search.c:83-169 (ASan/UBSan) = model on every generated case "
              "(arcs, vocabulary, filler/alt bits, return values, written text, read result)", allok)
     c.oblige("oracle on the implementation: language and best log-probability over real words unchanged by closure / "
@@ -1037,6 +1076,9 @@ def check(c):
                   "best_probability_sentences_compared": st["best_sentences"], "of_which_accepted": st["best_accepting"],
                   "best_probability_crosschecks_driver_vs_checker": st["best_crosschecks"],
                   "best_probability_oracles_skipped_simple_null_path_below_log_zero": st["best_oracle_skipped_saturating"],
+                  "fsg_model_arcs_iterations_checked_word_arcs_before_null_arcs": st["arc_iterations_checked"],
+                  "probability_tokens_checked_against_ReadLaw": st["readlaw_tokens"],
+                  "leak_checked_cases": len(leak_cases),
                   "idempotence_checks_on_implementation": st["idempotence_checks"],
                   "closure_cases_that_changed_the_grammar": st["closure_raised_or_added_cases"],
                   "null_links_added_by_closure": st["closure_added"],
